@@ -165,6 +165,9 @@ JSvd(r) ==
                             LET G == IF a = 1 THEN b.g1 ELSE b.g2 IN
                             OffDiagZero(G, D) /\ DiagIsSv2(G, b.sv2, D, n, PowSum(w, a), lam))
           /\ Clause(i, "C19.svd.rank", b.rank = AffRank(P))
+          \* ... also with a tolerance of 1e-9 units: on exactly rank-deficient lattice data the vanishing singular values are
+          \* rounding noise (1e-15), not 1e-8
+          /\ Clause(i, "C19.svd.rank_fine", b.rank9 = AffRank(P))
           /\ Clause(i, "C19.svd.extremes", b.lg = B[1] /\ b.sm = B[D])
           \* conversion to an isometry (world -> basis coordinates)
           /\ Clause(i, "C19.svd.iso.defined", ~iso.na)
